@@ -65,6 +65,7 @@ type FnEnc struct {
 	obls        []*Obl
 	oblCount    map[string]int
 	assertFired map[int]bool
+	lastRets    []RV // results of the call being translated (bound as ret, ret0, ret1 in `after` cut points)
 	lits        map[string]string // const name -> literal
 	loops       []*Loop
 	loopOf      map[*ssa.BasicBlock]*Loop
@@ -1041,6 +1042,51 @@ func (fe *FnEnc) callSrc(pos token.Pos) string {
 		}
 	}
 	return ""
+}
+
+// textOrdinal: among the call expressions of the function under verification whose source text contains text, in source
+// order, the 1-based position of the one at pos (0: none)
+func (fe *FnEnc) textOrdinal(pos token.Pos, text string) int {
+	f := fe.astFile(pos)
+	if f == nil {
+		return 0
+	}
+	var here *ast.CallExpr
+	path, _ := astutil.PathEnclosingInterval(f, pos, pos)
+	for _, n := range path {
+		if c, ok := n.(*ast.CallExpr); ok {
+			here = c
+			break
+		}
+	}
+	if here == nil {
+		return 0
+	}
+	var root ast.Node
+	for _, n := range path {
+		switch n.(type) {
+		case *ast.FuncDecl:
+			root = n
+		}
+	}
+	if root == nil {
+		root = f
+	}
+	k, found := 0, 0
+	ast.Inspect(root, func(n ast.Node) bool {
+		if c, ok := n.(*ast.CallExpr); ok {
+			var sb strings.Builder
+			_ = printer.Fprint(&sb, fe.c.fset, c)
+			if strings.Contains(strings.Join(strings.Fields(sb.String()), " "), text) {
+				k++
+				if c == here {
+					found = k
+				}
+			}
+		}
+		return true
+	})
+	return found
 }
 
 func (fe *FnEnc) srcText(pos token.Pos, kind string) string {
